@@ -547,6 +547,26 @@ def streams(tier, rng):
                         e[q // 8] |= 0x80 >> (q % 8)
                     cases.append((XOR_OP[kn], [p, e]))
     yield "crc_corruption", "exact", cases
+    # PDUs whose (correct) CRC-16 trailer is 0x0000 / 0xFFFF / has a zero octet / a single bit (a derived quantity random
+    # packets hit once in 65536; found by steering the sequence number, c05.steer_crc): decode, re-pack, round trip
+    cases = []
+    for kn in KINDS:
+        base = KINDS[kn]["base"]
+        for sl, ql in (itertools.product(WIDTHS, WIDTHS) if big else [(1, 1), (1, 2), (2, 1), (2, 4), (4, 8), (8, 8)]):
+            for target in h5.crc_targets(rng):
+                for _ in range(50):
+                    a = _rand_pdu(kn, rng, sl=sl, ql=ql, crc=1)
+                    if valid(kn, a):
+                        break
+                b2 = h5.steer_crc(lay(kn, a), target)
+                a2 = [list(x) for x in a]; a2[0] = h5.ids_of(b2)
+                if lay(kn, a2) != b2:
+                    raise RuntimeError("steered PDU is not the layout of its arguments")
+                cases.append((base + 2, [b2])); cases.append((base + 3, [b2])); cases.append((base + 4, a2 + [[]])); cases.append((base + 1, a2))
+                cases.append((base + 2, [b2 + [rng.randrange(256) for _ in range(rng.choice([1, 3]))]]))
+                q = list(b2); q[-1 - rng.randrange(2)] ^= 1 << rng.randrange(8)
+                cases.append((base + 2, [q]))
+    yield "crc_trailer_special_values", "exact", cases
     # 9. garbage: random octets biased to directive headers with valid widths, consistent lengths and right CRC
     cases = []
     for _ in range(12000 if big else 1500):
